@@ -2,6 +2,8 @@ import TabulaModel.Util
 import TabulaModel.Model.GState
 import TabulaModel.Model.XDoc
 import TabulaModel.Lemmas.Expand
+import TabulaModel.Model.TextAdv
+import TabulaModel.Model.GPath
 /-
 Line protocol for C08.
 
@@ -9,8 +11,9 @@ Line protocol for C08.
   c08.gfx <tok> <tok> …   →  the stroked lines of `graphicsstate.NewGraphicsExtractor()`
 
 Tokens (no spaces inside; numbers are integers or `n/d`):
-  q Q BT ET T*  cm:a,b,c,d,e,f  Tm:a,b,c,d,e,f  Td:x,y  TD:x,y  Tf:s  TL:l  Tc:c  Tw:w  Tz:z
-  Tj:sid  ':sid  ":aw,ac,sid  L:x0,y0,x1,y1  Do[ … ]  Do:a,b,c,d,e,f[ … ]
+  q Q BT ET T*  cm:a,b,c,d,e,f  Tm:a,b,c,d,e,f  Td:x,y  TD:x,y  Tf:s  TL:l  Tc:c  Tw:w  Tz:z  Ts:r
+  Tj:sid  ':sid  ":aw,ac,sid  TJ:item,item…  (item: s<sid> | n<number>; `TJ:e` = empty array)
+  L:x0,y0,x1,y1  Do[ … ]  Do:a,b,c,d,e,f[ … ]
 Reply of c08.gs: `err` (extraction failed), `-` (no fragment) or `x,y,size²` per fragment
 joined by `;`, numbers as exact decimals; `~,~` for the origin of a fragment whose position
 depends on a glyph advance, `~` for size² when it is not the square of a rational.
@@ -32,12 +35,22 @@ def toMatrix : List Rat → Option (Matrix Rat)
   | [a, b, c, d, e, f] => some ⟨a, b, c, d, e, f⟩
   | _ => none
 
+/-- one element of a `TJ` array: `s<sid>` or `n<number>` -/
+def parseItem (t : String) : Option (TJItem Rat) :=
+  if t.startsWith "s" then (t.drop 1).toString.toNat?.map .str
+  else if t.startsWith "n" then (parseRat (t.drop 1).toString).map .num
+  else none
+
+def parseItems (sep : String) (v : String) : Option (List (TJItem Rat)) :=
+  if v == "e" || v == "" then some [] else (v.splitOn sep).mapM parseItem
+
 /-- one token that is not a bracket -/
 def parseSimple (t : String) : Option (Op Rat) :=
   match t with
   | "q" => some .q | "Q" => some .Q | "BT" => some .BT | "ET" => some .ET | "T*" => some .Tstar
   | _ =>
     match t.splitOn ":" with
+    | ["TJ", v] => (parseItems "," v).map .TJ
     | [k, v] => do
       let xs ← parseRats v
       match k, xs with
@@ -50,6 +63,7 @@ def parseSimple (t : String) : Option (Op Rat) :=
       | "Tc", [x] => some (.Tc x)
       | "Tw", [x] => some (.Tw x)
       | "Tz", [x] => some (.Tz x)
+      | "Ts", [x] => some (.Ts x)
       | "Tj", [x] => some (.Tj x.num.toNat)
       | "'", [x] => some (.quote x.num.toNat)
       | "\"", [w, c, x] => some (.dquote w c x.num.toNat)
@@ -148,6 +162,12 @@ def parseHexName (s : String) : Option Name :=
 
 def parseOperand (t : String) : Option (Operand Rat) :=
   if t == "?" then some .other
+  else if t.startsWith "[" && t.endsWith "]" then
+    -- an array: the elements `showTextArray` looks at (strings and numbers), `;`-separated;
+    -- an element of any other type is written `?` and dropped here, as its `switch` drops it
+    let inner := ((t.drop 1).dropEnd 1).toString
+    if inner.isEmpty then some (.arr [])
+    else (((inner.splitOn ";").filter (· != "?")).mapM parseItem).map .arr
   else if t.startsWith "/" then (parseHexName (t.drop 1).toString).map .name
   else if t.startsWith "s" then (t.drop 1).toString.toNat?.map .str
   else (parseRat t).map .num
@@ -155,8 +175,8 @@ def parseOperand (t : String) : Option (Operand Rat) :=
 def parseOpr (k : String) : Opr :=
   match k with
   | "q" => .q | "Q" => .Q | "cm" => .cm | "BT" => .BT | "ET" => .ET | "Tf" => .Tf | "Tc" => .Tc
-  | "Tw" => .Tw | "Tz" => .Tz | "TL" => .TL | "Tm" => .Tm | "Td" => .Td | "TD" => .TD
-  | "T*" => .Tstar | "Tj" => .Tj | "'" => .quote | "\"" => .dquote | "Do" => .Do
+  | "Tw" => .Tw | "Tz" => .Tz | "TL" => .TL | "Ts" => .Ts | "Tm" => .Tm | "Td" => .Td | "TD" => .TD
+  | "T*" => .Tstar | "Tj" => .Tj | "TJ" => .TJ | "'" => .quote | "\"" => .dquote | "Do" => .Do
   | _ => .other
 
 def parseRawOp (t : String) : Option (RawOp Rat) :=
@@ -333,8 +353,89 @@ def handleDoc (propMode : Bool) (args : List String) : String :=
     | _, _ => "bad-op"
   | [] => "bad-op"
 
+/-! ### c08.tx: every origin, with the displacement function of the code
+
+  c08.tx I:<sid>=<w0>,<n>,<sp>;…  <tok> …
+
+`I:` gives, per string id, what the font package reports for the string: the width
+`GetStringWidth(decoded)` in 1/1000 of the font size, its length in bytes, its number of
+space bytes (`I:-` = no strings).  The tokens are those of c08.gs.  Reply as c08.gs, but the
+origin of EVERY fragment is printed (model: `run (TextAdv.advance info)`). -/
+
+open Tabula.TextAdv
+
+def parseInfo (s : String) : Option (List (Nat × StrInfo Rat)) :=
+  if s == "I:-" then some []
+  else if s.startsWith "I:" then
+    ((s.drop 2).toString.splitOn ";").mapM fun e =>
+      match e.splitOn "=" with
+      | [k, v] => match k.toNat?, parseRats v with
+        | some sid, some [w0, n, sp] => some (sid, ⟨w0, n, sp⟩)
+        | _, _ => none
+      | _ => none
+  else none
+
+def showStrAll (sh : Show Rat) : String := showStr { sh with clean := true }
+
+def handleTx (args : List String) : String :=
+  match args with
+  | i :: toks =>
+    match parseInfo i, parseProgram toks with
+    | some tbl, some ops =>
+      let info : Nat → StrInfo Rat := fun sid => (tbl.lookup sid).getD ⟨0, 0, 0⟩
+      (match run (advance info) ops init with
+      | some shows => joinOr (shows.map showStrAll)
+      | none => "err")
+    | _, _ => "bad-op"
+  | [] => "bad-op"
+
+/-! ### c08.path: the graphics extractor on raw operations
+
+  c08.path <rawop> …        operator or operator:operand,operand…  (operands as in c08.doc)
+
+Reply: `ok` or `err`, then `;L=` the lines `x0,y0,x1,y1,width,flags,bx,by,bw,bh` (flags: h, v,
+hv or -) joined by `|`, `;R=` the rectangles `bx,by,bw,bh,strokeWidth,filled,stroked`, `;fl=`
+and `;fr=` the numbers of lines / rectangles that pass `GetFilteredLines` (min length 1) /
+`GetFilteredRectangles` (min 1 × 1), `;st=` the saved states, `;p=` the number of segments of
+the path under construction. -/
+
+open Tabula.GPath
+
+def parseGOpr (k : String) : GOpr :=
+  match k with
+  | "q" => .q | "Q" => .Q | "cm" => .cm | "w" => .w | "m" => .m | "l" => .l | "c" => .c | "v" => .v
+  | "y" => .y | "h" => .h | "re" => .re | "S" => .S | "s" => .s | "f" => .f | "F" => .F | "f*" => .fstar
+  | "B" => .B | "B*" => .Bstar | "b" => .b | "b*" => .bstar | "n" => .n
+  | _ => .other
+
+def parseRawG (t : String) : Option (RawG Rat) :=
+  match t.splitOn ":" with
+  | [k] => some ⟨parseGOpr k, []⟩
+  | [k, v] => ((v.splitOn ",").mapM parseOperand).map fun xs => ⟨parseGOpr k, xs⟩
+  | _ => none
+
+def lineStr (l : Line Rat) : String :=
+  let fl := (if l.horiz then "h" else "") ++ (if l.vert then "v" else "")
+  let fl := if fl.isEmpty then "-" else fl
+  s!"{dec l.p0.1},{dec l.p0.2},{dec l.p1.1},{dec l.p1.2},{dec l.width},{fl},{dec l.bbox.x},{dec l.bbox.y},{dec l.bbox.w},{dec l.bbox.h}"
+
+def rectStr (r : GPath.Rect Rat) : String :=
+  s!"{dec r.bbox.x},{dec r.bbox.y},{dec r.bbox.w},{dec r.bbox.h},{dec r.strokeWidth},{if r.filled then 1 else 0},{if r.stroked then 1 else 0}"
+
+def joinBar (xs : List String) : String := if xs.isEmpty then "-" else "|".intercalate xs
+
+def handlePath (args : List String) : String :=
+  match args.mapM parseRawG with
+  | some ops =>
+    let r := GPath.extract ops (GPath.init : PState Rat)
+    let st := r.1
+    s!"{if r.2 then "err" else "ok"};L={joinBar (st.lines.map lineStr)};R={joinBar (st.rects.map rectStr)};fl={(filterLines 1 st.lines).length};fr={(filterRects 1 1 st.rects).length};st={st.stack.length};p={st.path.segs.length}"
+  | none => "bad-op"
+
 def handle (op : String) (args : List String) : String :=
   match op with
+  | "c08.tx" => handleTx args
+  | "c08.path" => handlePath args
   | "c08.doc" => handleDoc false args
   | "c08.docp" => handleDoc true args
   | "c08.docx" => handleDocx false args
